@@ -118,7 +118,7 @@ def run(tier, seed, replay, extra):
             r.sample(smp)
         for pr in cov.get("overlapping_op_pairs", []) or []:
             overlap.add(pr)
-        for v in cov.get("violations", []):
+        for v in cov.get("violations") or []:
             sig = v["signature"].split("/", 2)
             r.violate(sig[1], sig[2], v.get("detail", ""), {"process_seed": s, "replay": v.get("replay")})
         for f in glob.glob(os.path.join(rdir, "p%d.*" % s)):
